@@ -292,6 +292,19 @@ theorem regress_pending (s : WState α) (id : α) (o : Obs) (hids : id ∈ s.ids
   refine ⟨by simp [decide?, hp, hids, hs, hf, hr], ?_⟩
   simp [statusUpdateInner, hp, hids, hs, hf, hr]
 
+/-- an object reported failed whose new status is neither Failed nor satisfies the condition (Terminating, Unknown, InProgress,
+NotFound in an apply phase …) is reported pending again and IS pending: the deadline's Timeout is for it too -/
+theorem failed_then_unfailed_pending (s : WState α) (id : α) (o : Obs) (hids : id ∈ s.ids) (hp : id ∉ s.pending)
+    (hf : id ∈ s.failed) (hs : skipped s.cond s.mgr id = false) (hu : changedUID s.mgr o id = false)
+    (hr : reconciled s.cond s.mgr o id = false) (hst : o.status ≠ .failed) :
+    (statusUpdate s id o).events = s.events ++ [(id, .pending)] ∧ id ∈ (statusUpdate s id o).pending := by
+  unfold statusUpdate
+  simp only [hids, if_true]
+  have h := inner_mgr_events (o := o) { s with cache := (id, o) :: s.cache } id (by simp)
+  rw [endIf_events, h.1, endIf_pending]
+  refine ⟨by simp [decide?, hp, hids, hs, hf, hu, hr, hst], ?_⟩
+  simp [statusUpdateInner, hp, hids, hs, hf, hu, hr, hst]
+
 theorem timeout_fold (l : List α) (s : WState α) :
     (l.foldl (fun st id => emit st id .timeout) s).events = s.events ++ l.map (fun id => (id, WEv.timeout)) ∧
     (l.foldl (fun st id => emit st id .timeout) s).pending = s.pending := by
